@@ -23,6 +23,7 @@ LEVEL_TEXT = (
     "the following calibrate() call runs to completion without deadlock. Equality of the history with the fault-free "
     "prefix is a runtime clause and is not decided."
     ' (R3) no exception handler in any function reachable from calibrate ends normally when its try-body runs repository code or a user-supplied callable (third-party-only bodies with a documented fallback are not batch faults).'
+    ' A handler that re-raises around repository / user code raises the exception it caught; the round-robin position advances in update(), so a retried batch is run by the sampler whose turn it was (C09-R1).'
 )
 TECHNIQUE = "CFG try/finally dominance rule + commit-region path query + exhaustive product of extracted thread summaries with injected exceptional exits"
 LEVEL_NOTE = ("Trusted base: as C10; faults are injected at the three user-code call sites of Calibrator.calibrate (sample, simulate_model, compute_loss), "
